@@ -2,7 +2,11 @@ package main
 
 // C19 — the in-memory object store answers queries like the bolt-backed store.
 //
-// Case line:   o <rows> <filter> <sort> <skip> <limit> <order> [<variant>]
+// Case line:   o <rows> <filter> <sort> <skip> <limit> <order> [<variant> [<reps>]]
+//
+//	<reps>     - | <id>:<rep>,…  how the object's *time.Time represents the instant of column t (the bolt store holds the
+//	           instant): z1 z2 z3 = three FixedZone pointers (z1 and z3 alike in name and offset), z4 = time.Local,
+//	           m = derived from ONE time.Now() reading with Add (time.Local + monotonic clock reading); default: UTC
 //
 //	<filter>   atom | and~F~F | or~F~F | not~F (prefix notation) | setfn.<fn>.<symbol> (a set function on that symbol)
 //	<variant>  full (default; a symbol of every Add…Symbol kind) | sub (only id, s, i) | noid (no id symbol)
@@ -24,6 +28,7 @@ import (
 	"fmt"
 	"strconv"
 	"strings"
+	"time"
 
 	"github.com/openziti/storage/ast"
 	"go.etcd.io/bbolt"
@@ -38,10 +43,17 @@ func c19Exec(line string) string {
 	if len(f) == 7 {
 		f = append(f, "full")
 	}
+	reps := "-"
+	if len(f) == 9 {
+		reps, f = f[8], f[:8]
+	}
 	if len(f) != 8 || f[0] != "o" {
 		return "bad-case"
 	}
 	s := pgLoad(f[1])
+	// the objects' time.Time values take the requested representation for this case only (the stores are cached; the
+	// bolt store was written at load time and holds the instant)
+	defer c19ApplyReps(s.rows, f[1], reps)()
 	ostore := s.objs
 	switch f[7] {
 	case "sub":
@@ -94,6 +106,84 @@ func c19Exec(line string) string {
 		out = append(out, "objc="+pgIds(pgThingIds(o1), c1, e1)+"/"+pgIds(pgThingIds(o2), c2, e2)+"/"+st)
 	}
 	return strings.Join(out, "|")
+}
+
+var c19Now = time.Now()
+var c19Zones = map[string]*time.Location{"z1": time.FixedZone("east", 7200), "z2": time.FixedZone("west", -18000),
+	"z3": time.FixedZone("east", 7200), "z4": time.Local}
+
+// c19MonoWindow: base.Add(d) keeps the monotonic reading only while the wall seconds fit the 33-bit field that counts
+// from 1885-01-01 (time.Time.addSec)
+func c19MonoWindow(tok string) bool {
+	if tok == pgZeroTime {
+		return false
+	}
+	ns, err := strconv.ParseInt(tok, 10, 64)
+	if err != nil {
+		return false
+	}
+	sec := ns / 1000000000
+	if ns%1000000000 < 0 {
+		sec--
+	}
+	sec += 2682288000
+	return 0 <= sec && sec <= 1<<33-1
+}
+
+// c19Rep: a time.Time denoting the same instant as t in the representation rep
+func c19Rep(t time.Time, tok, rep string) time.Time {
+	if z, ok := c19Zones[rep]; ok {
+		return t.In(z)
+	}
+	if rep == "m" {
+		var v time.Time
+		if c19MonoWindow(tok) {
+			ns, _ := strconv.ParseInt(tok, 10, 64)
+			v = c19Now.Add(time.Duration(ns - c19Now.UnixNano()))
+		} else {
+			v = t.In(time.Local)
+		}
+		if hasMono := strings.Contains(v.String(), " m="); hasMono != c19MonoWindow(tok) || !v.Equal(t) {
+			panic("c19Rep: monotonic reading window")
+		}
+		return v
+	}
+	return t
+}
+
+// c19ApplyReps sets the representation of the objects' time values and returns the function that restores them.
+func c19ApplyReps(rows []*pgThing, ds, reps string) func() {
+	if reps == "-" || reps == "" {
+		return func() {}
+	}
+	want := map[string]string{}
+	for _, e := range strings.Split(reps, ",") {
+		if kv := strings.SplitN(e, ":", 2); len(kv) == 2 {
+			want[kv[0]] = kv[1]
+		}
+	}
+	toks := map[string]string{}
+	for _, r := range strings.Split(ds, ";") {
+		if c := strings.Split(r, ","); len(c) > 6 {
+			toks[c[0]] = strings.TrimPrefix(c[6], "T")
+		}
+	}
+	type saved struct {
+		e *pgThing
+		t time.Time
+	}
+	var undo []saved
+	for _, e := range rows {
+		if rep, ok := want[e.Id]; ok && e.T != nil {
+			undo = append(undo, saved{e, *e.T})
+			*e.T = c19Rep(*e.T, toks[e.Id], rep)
+		}
+	}
+	return func() {
+		for _, u := range undo {
+			*u.e.T = u.t
+		}
+	}
 }
 
 func c19Emit(out *bufio.Writer, ds, filter, sortTok, skip, limit, order string) {
@@ -217,6 +307,50 @@ func c19GenAliases(r *rng, out *bufio.Writer, nData, perData int) {
 	}
 }
 
+// c19GenTimeReps: collections in which several objects carry the SAME instant as different time.Time values (UTC, fixed
+// zones, Local, with a monotonic reading), sorted by t in either direction (alone, before or after other keys), every
+// iteration order, every paging boundary: equal instants tie and fall through to the id.
+func c19GenTimeReps(r *rng, out *bufio.Writer, nData, perData int) {
+	repPool := []string{"", "z1", "z2", "z3", "z4", "m", "m"}
+	for d := 0; d < nData; d++ {
+		n := 2 + r.intn(5)
+		rows := strings.Split(pgGenRows(r, n), ";")
+		// few distinct instants: ties are the rule
+		tpool := []string{pick(r, pgTimePool), pick(r, pgTimePool), pick(r, pgTimeConsts)}
+		var reps []string
+		for i, row := range rows {
+			f := strings.Split(row, ",")
+			f[6] = pick(r, tpool)
+			rows[i] = strings.Join(f, ",")
+			if rep := pick(r, repPool); rep != "" {
+				reps = append(reps, f[0]+":"+rep)
+			}
+		}
+		repTok := "-"
+		if len(reps) > 0 {
+			repTok = strings.Join(reps, ",")
+		}
+		ds := strings.Join(rows, ";")
+		sp, lp := pgSkipPool(n), pgLimitPool(n)
+		for k := 0; k < perData; k++ {
+			skip, limit := "-", "-"
+			if r.chance(1, 2) {
+				skip, limit = pgPickPaging(r, sp, n, false), pgPickPaging(r, lp, n, true)
+			}
+			sortTok := "t" + pick(r, []string{"+", "-", "~"}) + pick(r, []string{"", "", "", ",s+", ",id-", ",b-,i+"})
+			if r.chance(1, 5) {
+				sortTok = pick(r, []string{"b+,", "s-,"}) + sortTok
+			}
+			filter := "true"
+			if r.chance(1, 3) {
+				filter = pick(r, []string{"notnull.t", "cmp.t.eq." + pick(r, pgTimeConsts), "cmp.t.ge." + pick(r, pgTimeConsts), c19GenFilter(r)})
+			}
+			order := pick(r, []string{"fwd", "rev", "rev", "map", "rot" + strconv.Itoa(1+r.intn(5))})
+			fmt.Fprintf(out, "o %s %s %s %s %s %s full %s\n", ds, filter, sortTok, skip, limit, order, repTok)
+		}
+	}
+}
+
 func c19GenWide(r *rng, out *bufio.Writer, nData, perData int) {
 	for d := 0; d < nData; d++ {
 		n := r.intn(8)
@@ -298,9 +432,11 @@ func c19Gen(tier string, seed uint64, out *bufio.Writer) {
 		c19GenWide(newRng(seed^0xC19A), out, 2500, 60)
 		c19GenNaNKeys(newRng(seed^0xC19B), out, 600, 30)
 		c19GenAliases(newRng(seed^0xC19C), out, 600, 30)
+		c19GenTimeReps(newRng(seed^0xC19D), out, 600, 30)
 	} else {
 		c19GenWide(newRng(seed^0xC19A), out, 150, 40)
 		c19GenNaNKeys(newRng(seed^0xC19B), out, 40, 25)
 		c19GenAliases(newRng(seed^0xC19C), out, 40, 30)
+		c19GenTimeReps(newRng(seed^0xC19D), out, 60, 25)
 	}
 }
